@@ -137,8 +137,12 @@ def run(ctx, rep, tier):
             tree = balanced(leaves, "List")
         examine(tuple(t for t in texts if not t.startswith("-name")), tree, label)
         n += 1
+    n_names = symbolic_names(B, rep, tier)
     n_mode = mode_predicate(B, rep, 4 if tier == "quick" else 6)
     cov = B.coverage_common()
+    cov["symbolic_file_names"] = dict(obligations=n_names, explanation="file actions whose file name is 1-2 (thorough 3) arbitrary code points: the destination "
+                                      "table must name exactly that file for every name (z3 over the name characters), alone and next to a "
+                                      "second file action with a symbolic name (equal names share a tag, different names do not)")
     cov["mode_predicate"] = dict(obligations=n_mode, explanation="Expression::complex_frames executed symbolically (MIR) on -printf / -fprintf "
                                  "actions whose format is a list of 1..N symbolic elements (literal / field / escape, newline escape possible at "
                                  "every position), alone and under every operator next to an opaque sibling; z3 proves framed <=> the last "
@@ -152,6 +156,75 @@ def run(ctx, rep, tier):
                outside="more than 33 (thorough: 300) distinct destinations; other file names")
     rep.coverage = cov
     rep.assumptions = ["runtime contract of DESIGN.md 2.3; the parent process adds the terminator recorded in io_map to framed records"]
+
+
+def symbolic_names(B, rep, tier):
+    """the destination table names exactly the file of the action, whatever characters the name holds"""
+    n_ob = 0
+    fmt = VecV([Adt("FormatElement", "Field", [Adt("FormatField", "Name")]), Adt("FormatElement", "Special", [Adt("FormatSpecial", "Newline")])])
+
+    def act(kind, name_items):
+        args = [StringV(name_items)] + ([fmt] if kind == "FilePrintFormatted" else [])
+        return Adt("Expression", "Action", [Adt("Action", kind, args)])
+
+    def both(a, b):
+        return Adt("Expression", "Operator", [BoxV(Adt("Operator", "List", [a, b]), "Rc")])
+    cases = []
+    for kind in ("FilePrint", "FilePrintNull", "FilePrintFormatted"):
+        for k in ((1, 2) if tier == "quick" else (1, 2, 3)):
+            cs = [sym_char() for _ in range(k)]
+            cases.append(("%s[%d]" % (kind, k), act(kind, cs), [cs], [kind]))
+    c1, c2 = [sym_char()], [sym_char()]
+    cases.append(("FilePrint+FilePrint0", both(act("FilePrint", c1), act("FilePrintNull", c2)), [c1, c2], ["FilePrint", "FilePrintNull"]))
+    c3, c4 = [sym_char()], [sym_char()]
+    cases.append(("FilePrint+FilePrint", both(act("FilePrint", c3), act("FilePrint", c4)), [c3, c4], ["FilePrint", "FilePrint"]))
+    for label, tree, names, kinds in cases:
+        assume = [char_valid(c) for cs in names for c in cs]
+        findings, info = compare(B, "names:" + label, tree, None, assume_extra=assume)
+        n_ob += 1
+        seen = set()
+        for f in findings:
+            if f["klass"] in seen:
+                continue
+            seen.add(f["klass"])
+            m = f.get("model")
+            if m is None:
+                rep.inconclusive.append("symbolic file name finding without a model: %s" % f["text"][:120])
+                continue
+            texts = ["".join(chr(model_char(m, c)) for c in cs) for cs in names]
+
+            def q(t):
+                return '"%s"' % t.replace("\\", "\\\\").replace('"', '\\"')
+            parts = []
+            for kind, t in zip(kinds, texts):
+                parts.append({"FilePrint": "(fprintf %s (field NameWithoutStartingPoint) (special Newline))", "FilePrintNull": "(fprintf %s (field NameWithoutStartingPoint) (special Null))",
+                              "FilePrintFormatted": "(fprintf %s (field Name) (special Newline))"}[kind] % q(t))
+            sx = parts[0] if len(parts) == 1 else "(list %s %s)" % tuple(parts)
+            d = B.ctx.run_native_trees([sx])[0]
+            io = d.get("iomap", "")
+            if all(("File(%s" % json_debug(t)) in io for t in texts):
+                rep.inconclusive.append("file-name witness %r (%s) does not reproduce natively: %s" % (texts, label, io[:120]))
+                continue
+            rep.violation("routing:file-name", "%s with file name(s) %r: %s; native io_map=%s" % (label, texts, f["text"][:160], io[:200]),
+                          dict(sexpr=sx, finding=f["text"], native_iomap=io))
+    return n_ob
+
+
+def json_debug(t):
+    """Rust's Debug rendering of a string (ASCII cases used in witnesses)"""
+    out = '"'
+    for ch in t:
+        if ch in '"\\':
+            out += "\\" + ch
+        elif ch == "\n":
+            out += "\\n"
+        elif ch == "\t":
+            out += "\\t"
+        elif ch == "\r":
+            out += "\\r"
+        else:
+            out += ch
+    return out + '"'
 
 
 def mode_predicate(B, rep, nmax):
